@@ -75,7 +75,9 @@ func registerBasicOptions() error {
 	}); err != nil {
 		return err
 	}
-	logLevel = GetAsString(CfgLogLevel, defaultLogLevel)
+	// setLogLevel runs as an event hook: every change event starts its own
+	// goroutine, so the getter must be the concurrency-safe variant.
+	logLevel = Concurrent.GetAsString(CfgLogLevel, defaultLogLevel)
 
 	// Register to hook to update the log level.
 	if err := module.RegisterEventHook(
